@@ -1430,8 +1430,12 @@ impl Stdfs {
     /// ```
     pub fn remove_all<T: AsRef<Path>>(path: T) -> RvResult<()> {
         let path = Stdfs::abs(path)?;
-        if Stdfs::exists(&path) {
-            fs::remove_dir_all(path)?;
+        if let Ok(meta) = fs::symlink_metadata(&path) {
+            if meta.is_dir() {
+                fs::remove_dir_all(path)?;
+            } else {
+                fs::remove_file(path)?;
+            }
         }
         Ok(())
     }
